@@ -8,5 +8,9 @@ if [ -n "$(git status --porcelain)" ]; then echo "mutant.sh: /repo is dirty" >&2
 git apply "$patch" || { echo "mutant.sh: patch does not apply" >&2; exit 2; }
 trap 'git -C /repo checkout -- . ; git -C /repo clean -fdq' EXIT
 cd /verif
+# the evidence file describes the unchanged tree: keep it
+cp evidence/"$prop".json /var/tmp/evidence.$$.json 2>/dev/null
 VERIF_DIR=/verif ./run "$prop" "$tier" 2>&1 | grep -E "VIOLATION|KNOWN-FINDING|INTERNAL|violation|executions=" | head -${LINES_MAX:-12}
-exit ${PIPESTATUS[0]}
+rc=${PIPESTATUS[0]}
+[ -f /var/tmp/evidence.$$.json ] && mv /var/tmp/evidence.$$.json evidence/"$prop".json
+exit $rc
